@@ -54,6 +54,14 @@ fn all_parked(tids: &[i32], samples: usize) -> bool {
     true
 }
 
+/// tells the watchdog that a thread is through, also when it unwinds
+struct SendOnDrop(std::sync::mpsc::Sender<()>);
+impl Drop for SendOnDrop {
+    fn drop(&mut self) {
+        let _ = self.0.send(());
+    }
+}
+
 fn report_deadlock(case: &Case, detail: &str) -> ! {
     use std::hash::{Hash, Hasher};
     let (root, tier, seed) = RUN_CTX.get().cloned().unwrap_or((std::path::PathBuf::from("/verif"), "quick".into(), 0));
@@ -87,6 +95,10 @@ pub struct Case {
     /// bits of `writers_cycles` pick the constructor
     #[serde(default)]
     pub first_opens: u8,
+    /// threads that race on one snapshot of one group (0 or 1 = none): rollbacks against each
+    /// other, a rollback against re-takes under the same name, a rollback against a release
+    #[serde(default)]
+    pub consumers: u8,
 }
 
 fn gid(g: u8) -> GroupId {
@@ -497,6 +509,158 @@ fn claim_phase<S: MdkStorageProvider + Sync>(st: &S, case: &Case, rep: &mut Case
     Ok(())
 }
 
+/// K threads, released together, work on one and the same snapshot of one group. Every
+/// sequential order of the calls of a round leaves one of a few outcomes; anything else means a
+/// call was not atomic (a snapshot consumed twice, a re-taken snapshot deleted by a rollback that
+/// had started earlier, a snapshot holding a state the group never had together with ...).
+fn consume_phase<S: MdkStorageProvider + Sync>(st: &S, case: &Case, rep: &mut CaseReport) -> Result<(), Failure> {
+    let k = case.consumers.min(6) as usize;
+    if k < 2 {
+        return Ok(());
+    }
+    const G: u8 = 5; // a group of its own
+    let rounds: usize = if case.sqlite { 45 } else { 150 };
+    let name = "consume";
+    let read_v = |what: &str| -> Result<u64, Failure> {
+        let r = st
+            .find_group_by_mls_group_id(&gid(G))
+            .map_err(|e| Failure::new("read-failed", e.to_string()))?
+            .ok_or_else(|| Failure::new("lost-update", format!("{what}: the group record is gone")))?;
+        record_version(&r, G).map_err(|e| Failure::new("torn-read", format!("{what}: {e}")))
+    };
+    let listed = || -> Result<bool, Failure> {
+        Ok(st.list_group_snapshots(&gid(G)).map_err(|e| Failure::new("read-failed", e.to_string()))?.iter().any(|(n, _)| n == name))
+    };
+    for round in 0..rounds {
+        let mode = round % 3;
+        let v1 = 10 + 2 * round as u64;
+        let v2 = v1 + 1;
+        st.save_group(record(G, v1)).map_err(|e| Failure::new("setup-failed", e.to_string()))?;
+        st.create_group_snapshot(&gid(G), name).map_err(|e| Failure::new("setup-failed", e.to_string()))?;
+        st.save_group(record(G, v2)).map_err(|e| Failure::new("setup-failed", e.to_string()))?;
+        let barrier = Barrier::new(k);
+        // thread 0 always rolls back; the others: mode 0 roll back too, mode 1 re-take, mode 2 release
+        let tids: std::sync::Mutex<Vec<i32>> = std::sync::Mutex::new(vec![]);
+        let (tx, rx) = std::sync::mpsc::channel::<()>();
+        let results: Vec<Option<Result<(), String>>> = std::thread::scope(|s| {
+            let hs: Vec<_> = (0..k)
+                .map(|t| {
+                    let barrier = &barrier;
+                    let tids = &tids;
+                    let tx = tx.clone();
+                    s.spawn(move || {
+                        tids.lock().unwrap().push(unsafe { libc::syscall(libc::SYS_gettid) } as i32);
+                        let _done = SendOnDrop(tx);
+                        barrier.wait();
+                        let r = if t == 0 || mode == 0 {
+                            st.rollback_group_to_snapshot(&gid(G), name)
+                        } else if mode == 1 {
+                            st.create_group_snapshot(&gid(G), name)
+                        } else {
+                            st.release_group_snapshot(&gid(G), name)
+                        };
+                        r.map_err(|e| e.to_string())
+                    })
+                })
+                .collect();
+            drop(tx);
+            // these calls take microseconds; threads that never come back are either deadlocked
+            // (all parked, no CPU use: a violation) or the machine is stuck (inconclusive)
+            let mut got = 0;
+            let mut waited = 0;
+            while got < k {
+                match rx.recv_timeout(std::time::Duration::from_secs(10)) {
+                    Ok(()) => got += 1,
+                    Err(std::sync::mpsc::RecvTimeoutError::Timeout) => {
+                        waited += 10;
+                        let unfinished: Vec<i32> = {
+                            let all = tids.lock().unwrap().clone();
+                            all.into_iter().filter(|t| thread_stat(*t).is_some()).collect()
+                        };
+                        if !unfinished.is_empty() && unfinished.len() == k - got && all_parked(&unfinished, 15) {
+                            report_deadlock(
+                                case,
+                                &format!(
+                                    "round {round} of the snapshot race: {k} threads released together (thread 0 rolls back to snapshot `{name}`, the others {}); {} of them never returned: all parked, no CPU use for 3 s after {waited} s of waiting",
+                                    ["roll back to it too", "re-take it under the same name", "release it"][mode],
+                                    k - got
+                                ),
+                            );
+                        }
+                        if waited >= 120 {
+                            println!("inconclusive: watchdog - the snapshot race did not finish within 120 s in case {case:?}");
+                            std::process::exit(2);
+                        }
+                    }
+                    Err(_) => break,
+                }
+            }
+            hs.into_iter().map(|h| h.join().ok()).collect()
+        });
+        if results.iter().any(|r| r.is_none()) {
+            return Err(Failure::new("panic", format!("a snapshot call panicked under concurrent use (round {round})")));
+        }
+        let results: Vec<Result<(), String>> = results.into_iter().map(|r| r.unwrap()).collect();
+        let live = read_v("after the snapshot race")?;
+        let is_listed = listed()?;
+        let ctx = format!(
+            "round {round}: snapshot `{name}` taken at record version {v1}, record then saved at version {v2}; {k} threads released together: thread 0 rolls back to it, the other {} {}; results {:?}; afterwards the record is at version {live} and the snapshot is {}",
+            k - 1,
+            ["roll back to it too", "re-take it under the same name", "release it"][mode],
+            results,
+            if is_listed { "listed" } else { "not listed" }
+        );
+        match mode {
+            0 => {
+                let oks = results.iter().filter(|r| r.is_ok()).count();
+                if oks != 1 || live != v1 || is_listed {
+                    return Err(Failure::new("snapshot-consumed-more-than-once", format!("{ctx}; every sequential order lets exactly one rollback succeed (the snapshot exists once), leaves version {v1} and no snapshot")));
+                }
+            }
+            1 => {
+                // a = number of re-takes ordered before the rollback: a = 0 -> (v1, listed, holds v1);
+                // 0 < a < k-1 -> (v2, listed, holds v2); a = k-1 -> (v2, not listed). All calls succeed.
+                if let Some(e) = results.iter().find_map(|r| r.as_ref().err()) {
+                    return Err(Failure::new("snapshot-race-not-sequential", format!("{ctx}; in every sequential order all calls succeed, one answered {e}")));
+                }
+                let ok = match (live, is_listed) {
+                    (l, true) if l == v1 => true,
+                    (l, true) if l == v2 => k - 1 >= 2,
+                    (l, false) if l == v2 => true,
+                    _ => false,
+                };
+                if !ok {
+                    return Err(Failure::new("snapshot-race-not-sequential", format!("{ctx}; sequential orders leave (version {v1}, listed), (version {v2}, not listed){}", if k > 2 { format!(" or (version {v2}, listed)") } else { String::new() })));
+                }
+                if is_listed {
+                    // what the surviving snapshot holds: the state at the instant it was re-taken,
+                    // which in every sequential order is the final state
+                    st.save_group(record(G, 5)).map_err(|e| Failure::new("setup-failed", e.to_string()))?;
+                    st.rollback_group_to_snapshot(&gid(G), name).map_err(|e| Failure::new("snapshot-race-not-sequential", format!("{ctx}; the listed snapshot cannot be rolled back to: {e}")))?;
+                    let held = read_v("after rolling back to the surviving snapshot")?;
+                    if held != live {
+                        return Err(Failure::new("snapshot-race-not-sequential", format!("{ctx}; the surviving snapshot holds version {held}: in every sequential order a re-take that comes after the rollback copies the state the rollback left")));
+                    }
+                }
+            }
+            _ => {
+                // rollback first: Ok, v1; a release first: NotFound, v2. Never listed.
+                let r0 = &results[0];
+                let ok = !is_listed && ((r0.is_ok() && live == v1) || (r0.is_err() && live == v2));
+                if !ok || results[1..].iter().any(|r| r.is_err()) {
+                    return Err(Failure::new("snapshot-race-not-sequential", format!("{ctx}; sequential orders leave (rollback Ok, version {v1}) or (rollback refused, version {v2}), the snapshot gone either way")));
+                }
+            }
+        }
+        if is_listed {
+            let _ = st.release_group_snapshot(&gid(G), name);
+        }
+    }
+    *rep.counters.entry("snapshot-consume-races".into()).or_insert(0) += rounds as u64;
+    rep.classes.push(format!("consumers-{k}"));
+    Ok(())
+}
+
 /// N threads open the same, not yet existing database path at the same moment. Any sequential
 /// order of these calls lets every one of them succeed and see the same database.
 fn first_open_phase(case: &Case, rep: &mut CaseReport) -> Result<(), Failure> {
@@ -606,10 +770,12 @@ pub fn exec(case: &Case, _mode: Mode) -> Result<CaseReport, Failure> {
         let st = MdkSqliteStorage::new_unencrypted(dir.0.join("t.db")).map_err(|e| Failure::new("setup-failed", e.to_string()))?;
         stress(&st, case, &mut rep)?;
         claim_phase(&st, case, &mut rep)?;
+        consume_phase(&st, case, &mut rep)?;
     } else {
         let st = MdkMemoryStorage::default();
         stress(&st, case, &mut rep)?;
         claim_phase(&st, case, &mut rep)?;
+        consume_phase(&st, case, &mut rep)?;
     }
     Ok(rep)
 }
@@ -623,7 +789,7 @@ pub fn main(args: &Args) -> i32 {
     let spec = Spec {
         id: "C19",
         level: "exploration",
-        rule: "randomised stress runs against a sequential specification: per group one writer thread repeats (save_group v, replace_group_relays v, save_group_exporter_secret v, every 8th cycle save_message) with the version embedded in every field and every relay URL; 0..8 reader threads check that every record / by-Nostr-id lookup / relay listing / secret is whole (one version, complete set), never goes backwards for a reader, that listings hold no duplicate or foreign message; 0..4 threads take snapshots of groups while they are written. Afterwards every snapshot is rolled back to and must show versions with record >= relays >= secret >= record-1 (the writer's program order: a state of one instant), other groups untouched. Then 2..6 threads, released together for 40..120 rounds, each save a different new group under one shared Nostr group id: exactly one call per round may succeed and exactly one group may own the id. In a third of the cases 2..12 threads first open one and the same fresh database path at once (unencrypted / caller key / keyring constructor): every open must succeed and all instances must be the same database. Thread counts 2..16, both backends, per-thread yield patterns at SQLite storage ticks; a watchdog turns a proven deadlock (no progress for 20 s, every unfinished thread parked with zero CPU use) into a violation and any other hang into exit 2. Non-trivial = at least two threads and at least one concurrent read; distinct = distinct cases".into(),
+        rule: "randomised stress runs against a sequential specification: per group one writer thread repeats (save_group v, replace_group_relays v, save_group_exporter_secret v, every 8th cycle save_message) with the version embedded in every field and every relay URL; 0..8 reader threads check that every record / by-Nostr-id lookup / relay listing / secret is whole (one version, complete set), never goes backwards for a reader, that listings hold no duplicate or foreign message; 0..4 threads take snapshots of groups while they are written. Afterwards every snapshot is rolled back to and must show versions with record >= relays >= secret >= record-1 (the writer's program order: a state of one instant), other groups untouched. Then 2..6 threads, released together for 40..120 rounds, each save a different new group under one shared Nostr group id: exactly one call per round may succeed and exactly one group may own the id. Then 2..6 threads race on one snapshot of one group for 45..150 rounds (all roll back to it; one rolls back while the others re-take it under the same name; one rolls back while the others release it): results, record version, listing and the content of a surviving snapshot must be what some sequential order of the calls leaves. In a third of the cases 2..12 threads first open one and the same fresh database path at once (unencrypted / caller key / keyring constructor): every open must succeed and all instances must be the same database. Thread counts 2..16, both backends, per-thread yield patterns at SQLite storage ticks; a watchdog turns a proven deadlock (no progress for 20 s, every unfinished thread parked with zero CPU use) into a violation and any other hang into exit 2. Non-trivial = at least two threads and at least one concurrent read; distinct = distinct cases".into(),
         assumptions: vec![
             "schedule coverage is what the OS scheduler plus injected yields produce; a failure may need several runs to reproduce (the replay command runs a case 5 times)".into(),
             "what concurrent first opens do to the keyring key is judged in C13; here they must all succeed".into(),
@@ -638,8 +804,8 @@ pub fn main(args: &Args) -> i32 {
         // the cases are multi-threaded themselves: few workers
         RunPlan { cases, workers: 3 },
         || {
-            (any::<bool>(), 1u8..4, 20u16..max_cycles, 0u8..9, 0u8..5, prop::collection::vec(0u8..6, 1..6), 1u8..5, 0u8..7, prop_oneof![2 => Just(0u8), 1 => 2u8..13])
-                .prop_map(|(sqlite, groups, writers_cycles, readers, snapshotters, yields, relay_set_size, claimers, first_opens)| Case { sqlite, groups, writers_cycles, readers, snapshotters, yields, relay_set_size, claimers, first_opens })
+            (any::<bool>(), 1u8..4, 20u16..max_cycles, 0u8..9, 0u8..5, prop::collection::vec(0u8..6, 1..6), 1u8..5, 0u8..7, prop_oneof![2 => Just(0u8), 1 => 2u8..13], prop_oneof![1 => Just(0u8), 2 => 2u8..7])
+                .prop_map(|(sqlite, groups, writers_cycles, readers, snapshotters, yields, relay_set_size, claimers, first_opens, consumers)| Case { sqlite, groups, writers_cycles, readers, snapshotters, yields, relay_set_size, claimers, first_opens, consumers })
         },
         exec,
     )
